@@ -179,6 +179,20 @@ func checkC05(c *Ctx) {
 	// ---- PAIR on the functions of this property
 	only := map[string]bool{"RotateNeighbors": true, "sortNeighbors": true, "RerootOutGroup": true, "RerootMidPoint": true, "UnRoot": true}
 	c.checkPair("PAIR", only)
+	c.Decides("CMD-REACHES: in the reroot outgroup / reroot midpoint / unroot / rotate commands nothing between the head of the loop over the input trees and the call of the operation leaves the iteration except under an error test (no tree is filtered out in front of the operation)")
+	for _, fo := range [][2]string{{"cmd/outgroup.go", "RerootOutGroup"}, {"cmd/midpoint.go", "RerootMidPoint"}, {"cmd/unroot.go", "UnRoot"}, {"cmd/rotate_rand.go", "RotateInternalNodes"}, {"cmd/rotate_sort.go", "SortNeighborsByTips"}} {
+		c.cmdReaches("CMD-REACHES", fo[0], []string{fo[1]}, "all trees with branch lengths on >= 3 tips (rooted or not, any multifurcation)")
+	}
+	c.Floor("CMD-REACHES", 5)
+	c.Decides("ROOT-WRITE: every write of Tree.root in package tree is the setter, a listed case that needs no re-orientation, or is followed by ReorderEdges(<the new root>, nil, ...)")
+	c.rootWrites("ROOT-WRITE", "preserve the tip set, the set of splits with their lengths")
+	c.Floor("ROOT-WRITE", 4)
+	c.Decides("KEY-RAW: every access to the name index's map in tree/nodeindex.go is keyed by a name as it is (a name variable or a Name() call), on the storing and on the looking-up side alike")
+	c.indexKeysRaw("KEY-RAW", "that outgroup is exactly one of the two clades below the root")
+	c.Floor("KEY-RAW", 4)
+	c.Decides("DUP-REFUSED: NewNodeIndex (the name look-up behind the outgroup LCA) refuses every tree in which a non-empty name occurs twice, whatever kind of node carries it: the error return depends on the look-up result and on nothing else")
+	c.dupNameRefused("DUP-REFUSED", c.Func("tree", "", "NewNodeIndex"), "that outgroup is exactly one of the two clades below the root")
+	c.Floor("DUP-REFUSED", 1)
 	c.Floor("PAIR", 8)
 	c.Floor("LF", 8)
 }
